@@ -327,7 +327,18 @@ func needQuoted(a Atom) bool {
 }
 
 func quote(s string) string {
-	return fmt.Sprintf("'%s'", quotedAtomEscapePattern.ReplaceAllStringFunc(s, quotedIdentEscape))
+	var sb strings.Builder
+	_, _ = sb.WriteString("'")
+	for _, r := range s {
+		if isSingleQuotedCharacter(r) {
+			_, _ = sb.WriteRune(r)
+			continue
+		}
+		// Whatever the reader doesn't accept as is between quotes has to be escaped. e.g. '€'
+		_, _ = sb.WriteString(quotedIdentEscape(string(r)))
+	}
+	_, _ = sb.WriteString("'")
+	return sb.String()
 }
 
 func quotedIdentEscape(s string) string {
